@@ -12,14 +12,20 @@ PID = 'C02'
 RULE = ('1-4 non-empty inlets (single-inlet path is its own clause), liquid and gas, T inside the model range (liquids 260-440 K, gases 280-500 K), P 1e4-1e7 Pa, heat input Q = 0 / +-(up to 30 K)*sum(C) given as a number '
         'or through heat objects among the inlets; separate_out with energy balance; H / h / S assignment on single- and multi-phase streams with targets between the values at the ends of the temperature range and '
         'assignment of the current value. Entropy clauses use only (chemical, phase) pairs whose heat-capacity model integrates consistently (conditioning probe). '
-        'non-trivial = >=2 chemicals and (inlet temperatures spread >=5 K or Q != 0), or a target >=1 K away; distinct = hash of the case')
+        'non-trivial = >=2 chemicals and (inlet temperatures spread >=5 K or Q != 0), or a target >=1 K away; distinct = hash of the case. Second generation (appended cases): inlet phases drawn '
+        'independently (liquid+gas mixes), multi-phase (g,l) inlets and receivers, receivers of any phase/T/P with stale content, the receiver at any position / twice among the inlets, Q split over Q= and 0-3 heat objects, '
+        'None among the inlets, conserve_phases=True, Stream.sum / a+b / 0+a / a+=b / a-=b forms, separate_out of a stream in another phase / multi-phase / the stream itself / an empty stream, Hnet assignment, targets at the '
+        'very ends of the range, multi-phase streams over g/l/L holding an empty phase, one non-empty phase or a single phase')
 MIN_NONTRIVIAL = {'quick': 400, 'thorough': 10000}
 ASSUMPTIONS = ['bound 1e-5 K times the heat-capacity flow of the result (the solver tolerance is 1e-6 K)', 'ill-conditioned external heat-capacity integrals are excluded from the entropy clauses and reported as not judged']
 IDS = ('Water', 'Ethanol', 'Methanol', 'Octane', 'Acetone', 'Toluene')
 
 
 def required(tier):
-    return ['mix', 'mix:single-inlet', 'mix:Q', 'mix:heat-object', 'mix:pressure', 'separate', 'set-H', 'set-h', 'set-S', 'set-current', 'multi-phase']
+    return ['mix', 'mix:single-inlet', 'mix:Q', 'mix:heat-object', 'mix:pressure', 'separate', 'set-H', 'set-h', 'set-S', 'set-current', 'multi-phase',
+            'mix2:liquid+gas', 'mix2:multi-phase-inlet', 'mix2:multi-phase-receiver', 'mix2:stale-receiver', 'mix2:receiver-not-first-or-twice', 'mix2:conserve_phases', 'mix2:several-heat-objects',
+            'mix2:Q-number-and-heat-objects', 'mix2:Q-with-only-the-receiver', 'mix2:form-sum', 'mix2:form-add', 'mix2:form-iadd', 'sep2:other-in-another-phase', 'sep2:multi-phase', 'sep2:self',
+            'sep2:empty-other', 'sep2:isub', 'set-Hnet', 'set2:target-at-end-of-range', 'multi-phase2:empty-phase', 'multi-phase2:one-non-empty-phase', 'multi-phase2:one-phase', 'multi-phase2:L']
 
 
 class Heat:
@@ -194,8 +200,331 @@ def run_case(case, rec):
         rec.exception(t, e, what=f'{t} case raised {type(e).__name__}: {str(e)[:160]}')
 
 
+# ---------------------------------------------------------------------------
+# second generation (coverage audit): inlet phases drawn independently, multi-phase inlets and receivers, receivers in any state and at any
+# position among the inlets, heat split over Q= and several heat objects, conserve_phases, Stream.sum / + / += / -= forms, separating a stream
+# of another phase / the stream itself / an empty stream, Hnet assignment, multi-phase streams with an empty or a single phase.
+
+def gen_inlet2(rng, n, kind=None):
+    kind = kind or rng.choice('SSSM')
+    if kind == 'S': return dict(gen_inlet(rng, rng.choice('lg'), n), kind='S')
+    T = round(rng.uniform(290, 430), 2)
+    d = {'kind': 'M', 'T': T, 'P': round(10 ** rng.uniform(4, 7), 1)}
+    for ph in 'lg':
+        d[ph] = [0.0] * n if rng.random() < 0.2 else [0.0 if rng.random() < 0.4 else round(10 ** rng.uniform(-2, 3), 4) for _ in range(n)]
+    return d
+
+
+def nonempty_d(d):
+    return any(d['flows']) if d['kind'] == 'S' else (any(d['l']) or any(d['g']))
+
+
+def gen_case2(rng):
+    n = len(IDS)
+    t = rng.choices(['mix2', 'sep2', 'set2', 'setm2'], [6, 3, 2, 3])[0]
+    if t == 'mix2':
+        k = rng.choice([1, 1, 2, 2, 2, 3, 4])
+        inlets = [gen_inlet2(rng, n) for _ in range(k)]
+        for d in inlets:
+            if not nonempty_d(d):
+                if d['kind'] == 'S': d['flows'][rng.randrange(n)] = 1.0
+                else: d[rng.choice('lg')][rng.randrange(n)] = 1.0
+        if rng.random() < 0.2: inlets.insert(rng.randrange(len(inlets) + 1), {'kind': 'S', 'phase': rng.choice('lg'), 'T': 300., 'P': 2e4, 'flows': [0.0] * n})
+        form = rng.choices(['mix_from', 'sum', 'add', 'iadd'], [8, 1, 1, 1])[0]
+        r = rng.random()
+        if form == 'iadd': recv = {'mode': 'inlet', 'i': 0, 'pos': [0]}
+        elif form != 'mix_from': recv = None
+        elif r < 0.3:
+            # the receiver is one of the inlets, listed once or twice at any position
+            i = rng.randrange(len(inlets)); npos = rng.choice([1, 1, 2])
+            recv = {'mode': 'inlet', 'i': i, 'pos': sorted(rng.randrange(len(inlets) + 1) for _ in range(npos))}
+        else:
+            recv = {'mode': 'own', 'kind': rng.choice('SSM'), 'phase': rng.choice('lg'), 'T': round(rng.uniform(280, 420), 2), 'P': round(10 ** rng.uniform(4, 7), 1),
+                    'stale': [0.0 if rng.random() < 0.5 else round(10 ** rng.uniform(-1, 2), 3) for _ in range(n)] if rng.random() < 0.5 else None}
+        q = rng.choice([0.0, rng.uniform(-30, 30), rng.uniform(-30, 30)])
+        nh = rng.choice([0, 0, 1, 2, 3]) if q else 0
+        cuts = sorted(rng.random() for _ in range(nh))
+        kwfrac = rng.choice([0.0, 1.0, round(rng.random(), 3)]) if nh else 1.0
+        return {'t': 'mix2', 'inlets': inlets, 'recv': recv, 'form': form, 'qK': round(q, 3), 'kwfrac': kwfrac, 'heat_cuts': [round(c, 4) for c in cuts],
+                'heat_pos': [rng.randrange(len(inlets) + 1) for _ in range(nh)], 'none_pos': rng.randrange(len(inlets) + 1) if rng.random() < 0.2 else None,
+                'conserve': form == 'mix_from' and rng.random() < 0.3}
+    if t == 'sep2':
+        form = rng.choice(['other', 'other', 'other', 'self', 'empty-other', 'isub'])
+        a = gen_inlet2(rng, n); b = gen_inlet2(rng, n)
+        if not nonempty_d(a):
+            if a['kind'] == 'S': a['flows'][0] = 5.0
+            else: a['l'][0] = 5.0
+        if form == 'empty-other':
+            if b['kind'] == 'S': b['flows'] = [0.0] * n
+            else: b['l'] = [0.0] * n; b['g'] = [0.0] * n
+        mkind = rng.choice('SSM'); mphase = rng.choice('lg')
+        if form in ('other', 'isub') and rng.random() < 0.4:
+            # a small single-phase stream of the other phase is separated out of a single-phase mixture (the mixture stays inside the model range)
+            a = gen_inlet2(rng, n, 'S'); b = gen_inlet2(rng, n, 'S')
+            if not any(a['flows']): a['flows'][0] = 5.0
+            b['phase'] = 'g' if a['phase'] == 'l' else 'l'
+            lo, hi = Trange(b['phase']); b['T'] = min(max(b['T'], lo + 5), hi - 5)
+            b['flows'] = [round(v * 0.02, 6) for v in b['flows']]
+            mkind = 'S'; mphase = a['phase']
+        return {'t': 'sep2', 'form': form, 'a': a, 'b': b, 'mkind': mkind, 'mphase': mphase}
+    if t == 'set2':
+        sd = gen_inlet2(rng, n)
+        if not nonempty_d(sd):
+            if sd['kind'] == 'S': sd['flows'][0] = 5.0
+            else: sd['l'][0] = 5.0
+        # Hnet assignment, and every assignment with targets at the very ends of the range (f = 0 and 1)
+        which = rng.choice(['Hnet', 'Hnet', 'H', 'h', 'S'])
+        f = rng.choice([0.0, 1.0]) if (which != 'Hnet' or rng.random() < 0.2) else round(rng.uniform(0.03, 0.97), 4)
+        return {'t': 'set2', 's': sd, 'which': which, 'f': f, 'current': which == 'Hnet' and rng.random() < 0.25}
+    phs = rng.choice(['gl', 'gl', 'l', 'g', 'lL', 'gL', 'glL'])
+    rows = {ph: [0.0 if rng.random() < 0.3 else round(10 ** rng.uniform(-1, 2), 4) for _ in range(n)] for ph in phs}
+    if len(phs) > 1 and rng.random() < 0.5: rows[rng.choice(phs)] = [0.0] * n         # a phase that holds nothing
+    if not any(any(r) for r in rows.values()): rows[phs[0]][0] = 3.0
+    return {'t': 'setm2', 'phases': phs, 'rows': rows, 'T': round(rng.uniform(300, 400), 2), 'P': rng.choice([101325., 3e5, 2e4]), 'which': rng.choice(['H', 'h', 'S', 'H', 'Hnet']),
+            'f': rng.choice([0.0, 1.0]) if rng.random() < 0.12 else round(rng.uniform(0.03, 0.97), 4), 'current': rng.random() < 0.25}
+
+
+def mk2(th, d):
+    if d['kind'] == 'S': return mk(th, d)
+    s = tmo.MultiStream(None, phases=('g', 'l'), T=d['T'], P=d['P'], thermo=th)
+    for ph in 'lg':
+        for i, v in zip(IDS, d[ph]):
+            if v: s.imol[ph, i] = v
+    return s
+
+
+def phases_of(s):
+    return tuple(s.phases) if isinstance(s, tmo.MultiStream) else (s.phase,)
+
+
+def range_of(s):
+    """temperature window in which every phase that holds material is inside its model range"""
+    lo, hi = 250., 520.
+    for ph in phases_of(s):
+        if isinstance(s, tmo.MultiStream) and not s.imol[ph].any(): continue
+        l, h = Trange(ph.lower())
+        lo, hi = max(lo, l), min(hi, h)
+    return lo, hi
+
+
+def s_ok2(s):
+    from vt.workloads.c07 import well_conditioned
+    for ph in phases_of(s):
+        flows = s.imol[ph] if isinstance(s, tmo.MultiStream) else s.mol
+        for c, v in zip(s.chemicals, flows.to_array() if hasattr(flows, 'to_array') else flows):
+            if v and not well_conditioned(getattr(c.Cn, ph.lower()), s.T): return False
+    return True
+
+
+def run_case2(case, rec):
+    rec.begin_case(case)
+    th = thermo_of(IDS)
+    tmo.settings.set_thermo(th)
+    t = case['t']
+    try:
+        if t == 'mix2':
+            ins = [mk2(th, d) for d in case['inlets']]
+            rc = case['recv']; form = case['form']
+            others = list(ins)
+            recv_in = False
+            if rc is None: recv = None
+            elif rc['mode'] == 'inlet':
+                recv = ins[rc['i']]; recv_in = True
+                if form == 'mix_from':
+                    others = [o for o in ins if o is not recv]
+                    for p in rc['pos']: others.insert(min(p, len(others)), recv)
+            else:
+                if rc['kind'] == 'S': recv = tmo.Stream(None, phase=rc['phase'], T=rc['T'], P=rc['P'], thermo=th)
+                else: recv = tmo.MultiStream(None, phases=('g', 'l'), T=rc['T'], P=rc['P'], thermo=th)
+                if rc['stale']:
+                    for i, v in zip(IDS, rc['stale']):
+                        if v:
+                            if rc['kind'] == 'S': recv.imol[i] = v
+                            else: recv.imol[rc['phase'], i] = v
+            if form == 'iadd': others = [recv] + [o for o in ins if o is not recv][:1]
+            if form == 'add': others = ins[:2]
+            streams = [o for o in others if not o.isempty()]
+            if not streams: rec.refuse('no non-empty inlet'); return
+            Hin = sum(o.H for o in streams); Cin = sum(o.C for o in streams)
+            Q = case['qK'] * Cin
+            Pmin = min(o.P for o in streams)
+            Ts = [o.T for o in streams]
+            kw = {}
+            args = list(others)
+            if form == 'mix_from':
+                if Q:
+                    cuts = [0.0] + case['heat_cuts'] + [1.0] if case['heat_cuts'] else []
+                    Qkw = Q * case['kwfrac'] if case['heat_cuts'] else Q
+                    shares = [(cuts[j + 1] - cuts[j]) for j in range(len(cuts) - 1)][:len(case['heat_cuts'])]
+                    tot = sum(shares) or 1.0
+                    heats = [(Q - Qkw) * x / tot for x in shares] if shares else []
+                    if heats: heats[-1] = (Q - Qkw) - sum(heats[:-1])
+                    for pos, h in zip(case['heat_pos'], heats): args.insert(min(pos, len(args)), Heat(h))
+                    if Qkw: kw['Q'] = Qkw
+                    Q = Qkw + sum(heats)
+                    rec.hit('mix2:Q')
+                    if len(heats) >= 2: rec.hit('mix2:several-heat-objects')
+                    if heats and Qkw: rec.hit('mix2:Q-number-and-heat-objects')
+                if case['none_pos'] is not None: args.insert(min(case['none_pos'], len(args)), None); rec.hit('mix2:None-among-inlets')
+                if case['conserve']: kw['conserve_phases'] = True
+            else:
+                Q = 0.0
+            in_phases = {p.lower() for o in streams for p in phases_of(o) if not isinstance(o, tmo.MultiStream) or o.imol[p].any()}
+            if form == 'mix_from': recv.mix_from(args, energy_balance=True, **kw)
+            elif form == 'sum': recv = tmo.Stream.sum(args, None, th)
+            elif form == 'add': recv = (args[0] + args[1]) if len(args) > 1 else sum(args)      # one operand: 0 + a (__radd__)
+            else: recv += args[1] if len(args) > 1 else args[0]
+            if form == 'iadd' and len(args) == 1:
+                Hin = 2 * Hin        # a += a mixes the stream with itself
+            Hout = recv.H; Cout = recv.C
+            lo, hi = range_of(recv)
+            if not (lo - 40 < recv.T < hi + 60): rec.refuse('mixed temperature outside the model range'); return
+            multi_in = any(isinstance(o, tmo.MultiStream) for o in streams)
+            tag = form + ('/single-inlet' if len(streams) == 1 else '/multi-inlet') + ('/liquid+gas' if len(in_phases) > 1 else '') + ('/multi-phase-inlet' if multi_in else '') + \
+                  ('/multi-phase-receiver' if rc and rc.get('kind') == 'M' else '') + ('/Q' if Q else '') + ('/receiver-among-inlets' if recv_in else '') + ('/conserve_phases' if kw.get('conserve_phases') else '')
+            res = abs(Hout - (Hin + Q))
+            rec.check(res <= 1e-5 * Cout, 'mix', f'enthalpy/{tag}', f'{form}: H out {Hout!r} != sum H in {Hin!r} + Q {Q!r} (residual {res:.4g} kJ/hr = {res / Cout:.3g} K * C; T in {Ts}, T out {recv.T}, result {type(recv).__name__} {phases_of(recv)})', residual=res / Cout)
+            rec.check(recv.P == Pmin, 'mix:pressure', tag, f'{form}: P out {recv.P!r} != lowest pressure among the non-empty inlets {Pmin!r}')
+            for s_in, d in zip(ins, case['inlets']):
+                if s_in is recv or s_in.isempty() or not any(s_in is o for o in others): continue
+                tw = mk2(th, d)
+                rec.check(s_in.T == d['T'] and abs(s_in.H - tw.H) <= 1e-9 * abs(tw.H) + 1e-9, 'mix', f'inlet-changed/{tag}',
+                          f'after {form} an inlet reports H={s_in.H!r}, T={s_in.T!r}; a fresh stream in the same state has H={tw.H!r}, T={d["T"]}')
+            if form == 'mix_from' and not recv_in:
+                # the unit is run again on the same objects: the receiver now holds the first result (possibly in another phase / as a multi-phase stream)
+                recv.mix_from(args, energy_balance=True, **kw)
+                H2 = recv.H
+                rec.check(abs(H2 - (Hin + Q)) <= 1e-5 * recv.C, 'mix', f'second-run/{tag}', f'second mix_from on the same objects: H out {H2!r} != sum H in {Hin!r} + Q {Q!r} (first run gave {Hout!r})',
+                          residual=abs(H2 - (Hin + Q)) / recv.C)
+                rec.check(recv.P == Pmin, 'mix:pressure', 'second-run/' + tag, f'second mix_from: P out {recv.P!r} != lowest pressure among the non-empty inlets {Pmin!r}')
+            rec.hit('mix2')
+            if len(in_phases) > 1: rec.hit('mix2:liquid+gas')
+            if multi_in: rec.hit('mix2:multi-phase-inlet')
+            if rc and rc.get('kind') == 'M': rec.hit('mix2:multi-phase-receiver')
+            if rc and rc.get('stale'): rec.hit('mix2:stale-receiver')
+            if recv_in and form == 'mix_from' and (len(rc['pos']) > 1 or rc['pos'][0] > 0): rec.hit('mix2:receiver-not-first-or-twice')
+            if kw.get('conserve_phases'): rec.hit('mix2:conserve_phases')
+            if form != 'mix_from': rec.hit('mix2:form-' + form)
+            if len(streams) == 1 and recv_in and Q: rec.hit('mix2:Q-with-only-the-receiver')
+            if max(Ts) - min(Ts) >= 5 or Q: rec.mark_nontrivial(case_hash(case))
+        elif t == 'sep2':
+            form = case['form']
+            a = mk2(th, case['a']); b = mk2(th, case['b'])
+            if form == 'self':
+                T0 = a.T; P0 = a.P
+                a.separate_out(a, energy_balance=True)
+                rec.check(a.isempty() and a.H == 0, 'separate', 'self', f'a.separate_out(a) with energy balance leaves F_mol={a.F_mol!r}, H={a.H!r}')
+                rec.hit('sep2:self')
+                return
+            if case['mkind'] == 'S': m = tmo.Stream(None, phase=case['mphase'], thermo=th)
+            else: m = tmo.MultiStream(None, phases=('g', 'l'), thermo=th)
+            if form == 'empty-other':
+                m.copy_like(a)
+                H0 = m.H; T0 = m.T
+                m.separate_out(b, energy_balance=True)
+                lo, hi = range_of(m)
+                rec.check(abs(m.T - T0) <= 1e-6 and abs(m.H - H0) <= 1e-5 * m.C, 'separate', 'empty-other', f'separating an empty stream out moved T {T0!r} -> {m.T!r}, H {H0!r} -> {m.H!r}', residual=abs(m.T - T0))
+                rec.hit('sep2:empty-other')
+                return
+            m.mix_from([a, b], energy_balance=True)
+            lo, hi = range_of(m)
+            if not (lo <= m.T <= hi): rec.refuse('the mixture to separate from is itself outside the model range of the phase it is held in'); return
+            H0 = m.H; Hb = b.H
+            tag = ('multi' if isinstance(m, tmo.MultiStream) else 'single') + '-phase-mixture/' + ('multi' if isinstance(b, tmo.MultiStream) else 'single') + '-phase-other' + ('/isub' if form == 'isub' else '')
+            other_phase = not isinstance(m, tmo.MultiStream) and not isinstance(b, tmo.MultiStream) and b.phase != m.phase
+            # outside the quantifier: the enthalpy left over cannot be reached by what remains, in the phase(s) it is held in, inside the model range
+            try:
+                rem = m.copy(); rem.separate_out(b, energy_balance=False)
+                if rem.isempty(): rec.refuse('nothing left after separation'); return
+                lo, hi = range_of(rem)
+                rem.T = lo - 60; Hlo = rem.H; rem.T = hi + 80; Hhi = rem.H
+                reachable = Hlo < H0 - Hb < Hhi
+            except Exception:
+                reachable = False
+            if not reachable: rec.refuse('temperature after separation outside the model range'); return
+            if form == 'isub': m -= b
+            else: m.separate_out(b, energy_balance=True)
+            if m.isempty(): rec.refuse('nothing left after separation'); return
+            H1 = m.H; C1 = m.C
+            lo, hi = range_of(m)
+            if not (lo - 60 < m.T < hi + 80): rec.refuse('temperature after separation outside the model range'); return
+            res = abs(H1 - (H0 - Hb))
+            rec.check(res <= 1e-5 * C1 + 1e-12 * abs(H0), 'separate', 'enthalpy/' + tag + ('/other-in-another-phase' if other_phase else ''),
+                      f'separate_out: H after {H1!r} != H before {H0!r} - H other {Hb!r} (residual {res:.4g}, C {C1:.4g})', residual=res / C1)
+            rec.hit('sep2')
+            if other_phase: rec.hit('sep2:other-in-another-phase')
+            if isinstance(m, tmo.MultiStream) or isinstance(b, tmo.MultiStream): rec.hit('sep2:multi-phase')
+            if form == 'isub': rec.hit('sep2:isub')
+            rec.mark_nontrivial(case_hash(case))
+        elif t == 'set2':
+            s = mk2(th, case['s']); which = case['which']
+            multi = isinstance(s, tmo.MultiStream)
+            lo, hi = range_of(s)
+            T0 = s.T
+            if not (lo <= T0 <= hi): rec.refuse('start temperature outside the common model range of the phases present'); return
+            if which == 'S' and not s_ok2(s): rec.refuse('ill-conditioned external heat-capacity integral: entropy clause not judged'); return
+            def at(T):
+                s.T = T; return getattr(s, which)
+            vlo, vhi = at(lo), at(hi); s.T = T0
+            cur = getattr(s, which)
+            ph0 = phases_of(s)
+            if case['f'] in (0.0, 1.0): rec.hit('set2:target-at-end-of-range')
+            if which == 'Hnet': rec.hit('set2:Hnet')
+            if case['current']:
+                setattr(s, which, cur)
+                rec.check(abs(s.T - T0) <= 1e-6 and phases_of(s) == ph0, 'set-current', which + ('/multi' if multi else ''), f'assigning the current {which} moved T by {s.T - T0!r} (phases {ph0} -> {phases_of(s)})', residual=abs(s.T - T0))
+                rec.hit('set-Hnet-current'); return
+            target = vlo + case['f'] * (vhi - vlo)
+            setattr(s, which, target)
+            back = getattr(s, which)
+            C = (s.C / s.F_mol if multi else s.Cn) if which == 'h' else s.C
+            bound = 1e-5 * C if which in ('H', 'h', 'Hnet') else 1e-5 * C / s.T
+            rec.check(abs(back - target) <= bound, 'set-' + which, 'read-back' + ('/multi' if multi else '') + ('/end-of-range' if case['f'] in (0.0, 1.0) else ''), f'{which} = {target!r} then reading gives {back!r} (T {T0} -> {s.T}; bound {bound:.3g})', residual=abs(back - target) / max(bound / 1e-5, 1e-300))
+            rec.check(phases_of(s) == ph0, 'set-' + which, 'phase-changed', f'{which} assignment inside the range changed the phases {ph0} -> {phases_of(s)}')
+            rec.check(lo - 1e-3 <= s.T <= hi + 1e-3, 'set-' + which, 'T-range', f'{which} target between the end values gave T={s.T} outside [{lo},{hi}]')
+            if abs(s.T - T0) >= 1: rec.mark_nontrivial(case_hash(case))
+        else:
+            which = case['which']
+            s = tmo.MultiStream(None, phases=tuple(case['phases']), T=case['T'], P=case['P'], thermo=th)
+            for ph, row in case['rows'].items():
+                for i, v in zip(IDS, row):
+                    if v: s.imol[ph, i] = v
+            nonempty = [ph for ph in s.phases if s.imol[ph].any()]
+            rec.hit('multi-phase2')
+            if len(nonempty) < len(s.phases): rec.hit('multi-phase2:empty-phase')
+            if len(nonempty) == 1: rec.hit('multi-phase2:one-non-empty-phase')
+            if len(s.phases) == 1: rec.hit('multi-phase2:one-phase')
+            if 'L' in nonempty: rec.hit('multi-phase2:L')
+            if which == 'S' and not s_ok2(s): rec.refuse('ill-conditioned external heat-capacity integral: entropy clause not judged'); return
+            lo, hi = range_of(s)
+            T0 = s.T
+            if not (lo <= T0 <= hi): rec.refuse('start temperature outside the common model range of the phases present'); return
+            def at(T):
+                s.T = T; return getattr(s, which)
+            vlo, vhi = at(lo), at(hi); s.T = T0
+            cur = getattr(s, which)
+            ph0 = tuple(s.phases)
+            kind = 'multi/' + ('one-non-empty-phase' if len(nonempty) == 1 else 'several-phases')
+            if case['f'] in (0.0, 1.0): rec.hit('set2:target-at-end-of-range')
+            if case['current']:
+                setattr(s, which, cur)
+                rec.check(abs(s.T - T0) <= 1e-6, 'set-current', which + '/' + kind, f'assigning the current {which} of a multi-phase stream {ph0} (non-empty {nonempty}) moved T by {s.T - T0!r}', residual=abs(s.T - T0))
+                return
+            target = vlo + case['f'] * (vhi - vlo)
+            setattr(s, which, target)
+            back = getattr(s, which)
+            C = s.C if which != 'h' else s.C / s.F_mol
+            bound = 1e-5 * C if which in ('H', 'h', 'Hnet') else 1e-5 * C / s.T
+            rec.check(abs(back - target) <= bound, 'set-' + which, 'read-back/' + kind, f'multi-phase {ph0} (non-empty {nonempty}) {which} = {target!r} then reading gives {back!r} (T {T0} -> {s.T})', residual=abs(back - target) / max(bound / 1e-5, 1e-300))
+            rec.check(lo - 1e-3 <= s.T <= hi + 1e-3, 'set-' + which, 'T-range/' + kind, f'multi-phase {which} target between the end values gave T={s.T} outside [{lo},{hi}]')
+            rec.check(isinstance(s, tmo.MultiStream) and tuple(s.phases) == ph0, 'set-' + which, 'phase-changed/multi', f'{which} assignment changed the phases {ph0} -> {phases_of(s)}')
+            if abs(s.T - T0) >= 1: rec.mark_nontrivial(case_hash(case))
+    except Exception as e:
+        rec.exception(t.rstrip('2') if t != 'setm2' else 'setm', e, what=f'{t} case raised {type(e).__name__}: {str(e)[:160]}')
+
+
 def replay(case, rec):
-    run_case(case, rec)
+    (run_case2 if case['t'].endswith('2') else run_case)(case, rec)
 
 
 def run(rec, rng, tier, shard, nshards):
@@ -207,3 +536,12 @@ def run(rec, rng, tier, shard, nshards):
         except Exception as e:
             rec.exception('harness', e, what=f'harness error: {type(e).__name__}: {e}')
         if i % 101 == 0: rec.sample(case)
+    # second generation: appended so that the cases above are the same as before
+    n2 = 700 if tier == 'quick' else 6000
+    for i in range(n2):
+        case = gen_case2(rng)
+        try:
+            run_case2(case, rec)
+        except Exception as e:
+            rec.exception('harness', e, what=f'harness error: {type(e).__name__}: {e}')
+        if i % 233 == 0: rec.sample(case)
